@@ -1,4 +1,5 @@
 """ICBind pipeline (C05): every <<signature, call>> state of spec/ICBind.tla is replayed on the implementation."""
+import inspect
 import json
 import os
 import shutil
@@ -39,7 +40,7 @@ def model_check_bind(max_params: int, max_pos: int, sw_index_all: bool = False, 
         shutil.rmtree(wd, ignore_errors=True)
 
 
-def sig_source(sig: List[dict], body: str) -> str:
+def sig_source(sig: List[dict], body: str, isasync: bool = False) -> str:
     parts = []
     seen_slash = False
     kinds = [p["kind"] for p in sig]
@@ -60,7 +61,7 @@ def sig_source(sig: List[dict], body: str) -> str:
             parts.append(name)
         if p["kind"] == "po" and i == npo:
             parts.append("/")
-    return "def f({}):\n    {}\n".format(", ".join(parts), body)
+    return "{}def f({}):\n    {}\n".format("async " if isasync else "", ", ".join(parts), body)
 
 
 class SigHarness:
@@ -107,6 +108,14 @@ class SigHarness:
         errf = eval("lambda {}: ({}, ERRCLS('e'))[1]".format(args, recs), ns2)
         self.f2 = ic.require(lambda: False, error=errf)(ns2["f"])
         self.errcls = ns2["ERRCLS"]
+        # f4 / f5: a violated POSTCONDITION (sync function / coroutine function) whose error factory asks for every
+        # named parameter although the condition names only the result
+        self.post_errf = []
+        for isasync in (False, True):
+            ns4 = {"D": self.D, "H": self, "ERRCLS": ns2["ERRCLS"]}
+            exec(sig_source(sig, body, isasync), ns4)  # noqa
+            errf4 = eval("lambda {}: ({}, ERRCLS('e'))[1]".format(args, recs), ns4)
+            self.post_errf.append(ic.ensure(lambda result: False, error=errf4)(ns4["f"]))
         # f3: a condition asks for a name the function does not have
         ns3 = {"D": self.D, "H": self}
         exec(sig_source(sig, body), ns3)  # noqa
@@ -119,6 +128,13 @@ class SigHarness:
         kw = {("p{}".format(k) if k else "zz"): S("K{}".format(k)) for k in kws}
         try:
             out = f(*pos, **kw)
+            if inspect.iscoroutine(out):
+                try:
+                    out.send(None)
+                    out.close()
+                    raise MachineryError("a coroutine of the binding harness suspended")
+                except StopIteration as stop:
+                    out = stop.value
             exc = None
         except BaseException as e:  # noqa
             out, exc = None, e
@@ -195,6 +211,23 @@ def replay_vectors(res: CheckResult, vectors: List[dict], ic: Any) -> Dict[str, 
                                           head, npos, kws, h.seen.get(("errf", i)), i),
                                       {"signature": "args.contract_seen", "sig": sig, "npos": npos, "kws": kws,
                                        "param": i, "role": "errf"})
+            for which, fpost in zip(("a function", "a coroutine function"), h.post_errf):
+                pos4, kw4, (out4, exc4) = h.call(fpost, npos, kws)
+                if not isinstance(exc4, h.errcls):
+                    res.violation("args.contract_seen", "{} npos={} kws={}: error factory of a postcondition of {}: {!r}".format(
+                        head, npos, kws, which, exc4),
+                        {"signature": "args.contract_seen", "sig": sig, "npos": npos, "kws": kws, "role": "errf-post"})
+                    continue
+                for i in h.named:
+                    tagk, idx = v["vals"][i - 1]
+                    want = pos4[idx - 1] if tagk == "P" else (kw4["p{}".format(idx)] if tagk == "K" else h.D[idx])
+                    stats["values_compared"] += 1
+                    if h.seen.get(("errf", i)) is not want:
+                        res.violation("args.contract_seen",
+                                      "{} npos={} kws={}: the error factory of a postcondition of {} saw {!r} for p{}".format(
+                                          head, npos, kws, which, h.seen.get(("errf", i)), i),
+                                      {"signature": "args.contract_seen", "sig": sig, "npos": npos, "kws": kws,
+                                       "param": i, "role": "errf-post"})
             # a requested name the call does not provide: TypeError naming it, the body does not run
             _, _, (out3, exc3) = h.call(h.f3, npos, kws)
             if not (isinstance(exc3, TypeError) and "q_absent" in str(exc3)) or h.body_locals is not None:
